@@ -764,6 +764,13 @@ impl Xot {
         let first_child = first_child.unwrap();
         // there is guaranteed to be a last child if there's a first child
         let last_child = self.last_child(node).unwrap();
+        if self.parent(node).is_none() && first_child != last_child {
+            // the children would become parentless nodes that are still
+            // siblings of each other
+            return Err(Error::InvalidOperation(
+                "Cannot unwrap a parentless element with more than one child".to_string(),
+            ));
+        }
         self.remove_element(node);
 
         let prev_node = self.previous_sibling(first_child);
